@@ -38,7 +38,14 @@ func ErrClass(err error) string {
 // Rand is splitmix64; every random choice of the harness derives from one state.
 type Rand struct{ s uint64 }
 
-func NewRand(seed uint64) *Rand { return &Rand{s: seed*0x9E3779B97F4A7C15 + 0x1234567} }
+// NewRand hashes the seed first: with the plain splitmix increment as state, seed k+1 would be the
+// stream of seed k shifted by one step.
+func NewRand(seed uint64) *Rand {
+	z := seed + 0x1234567
+	z = (z ^ (z >> 33)) * 0xFF51AFD7ED558CCD
+	z = (z ^ (z >> 33)) * 0xC4CEB9FE1A85EC53
+	return &Rand{s: z ^ (z >> 33)}
+}
 
 func (r *Rand) U64() uint64 {
 	r.s += 0x9E3779B97F4A7C15
